@@ -421,11 +421,12 @@ def _cachekey(ctx):
 
 
 def run(ctx):
-    t = rule_table(ctx)
+    S = ctx.soft
+    t = S(rule_table, ctx)
     t.prop, t.rule = 'C14', 'C14.table'
     for f in t.findings:
         f.prop, f.rule = 'C14', 'C14.table'
     for o in t.obligations:
         o.rule = 'C14.table'
-    return [rule_name(ctx), t, rule_lookup(ctx), rule_ref(ctx),
-            rule_plain(ctx), rule_local(ctx), _cachekey(ctx), rule_carry(ctx)]
+    return [S(rule_name, ctx), t, S(rule_lookup, ctx), S(rule_ref, ctx),
+            S(rule_plain, ctx), S(rule_local, ctx), S(_cachekey, ctx), S(rule_carry, ctx)]
